@@ -4,12 +4,18 @@
    and files exactly one Pickup event, in one state update, and is impossible for a request that is not waiting (so
    never after a cancel or a previous pickup); (3) a cancellation removes only a waiting request that has timed out and
    files exactly one Cancel event.
-   PARTIAL: the ledger over whole histories (each admitted id: #pickup + #cancel <= 1, waiting iff 0) is decided by
-   correspondence + the Ledger monitor, not yet by a theorem. *)
+   Over whole histories (C03_ledger_over_histories, through the macro frame theorem; instructions from any controller): replay
+   the event log oldest first, giving every request id a status (request_added -> Waiting, pickup -> PickedUp, cancel ->
+   Cancelled).  After every finite sequence of step operations (a) a request is in the waiting map exactly when its status is
+   Waiting — so a request leaves the map only through a pickup or a cancel event: nothing vanishes without a trace — and (b)
+   every pickup and every cancel event in the log was filed for a request that was Waiting at that moment.  Consequence
+   (C03_closed_once): after a pickup or a cancellation of an id there is no further pickup or cancellation of that id unless
+   the id is admitted again in between: never both, never twice.
+   PARTIAL: "dropped off exactly once, by the same vehicle" over histories (the per-transition facts are in C07/C19). *)
 From Hive.Base Require Import Prelude.
 From Hive.Model Require Import Types KernelBase SimOps States Step.
 From Hive.Gen Require Import Kernels.
-From Hive.Proofs Require Import Trip.
+From Hive.Proofs Require Import Trip VehFrame Macro LedgerInv.
 
 Theorem C03_no_divert : forall env s i vid q d l r nx,
   apply_phase2 env s (i, ((vid, ServicingTrip q d (l :: r)), nx)) = s.
@@ -31,5 +37,14 @@ Theorem C03_cancel_once : forall env s rid,
             log (cancel_one env s rid) = EvCancel rid (r_dep r) (sim_time s) :: log s /\
             vehicles (cancel_one env s rid) = vehicles s.
 Proof. exact cancel_one_spec. Qed.
+Theorem C03_ledger_over_histories : forall env ops s0, vkeys s0 -> log s0 = [] -> Forall op_ok ops ->
+  let s := fold_left (step_op env) ops s0 in
+  wf (init_of s0) (log s) /\ forall rid, find rid (requests s) <> None <-> status (init_of s0) (log s) rid = Waiting.
+Proof. intros env ops s0 K L O. exact (proj2 (ledger_invariant env (init_of s0) ops s0 K (Inv_ledger_initial s0 L) O)). Qed.
+Theorem C03_closed_once : forall init l2 e1 l1 rid, wf init (l2 ++ e1 :: l1) -> closes e1 rid ->
+  (forall e, In e l2 -> ~ adds e rid) -> forall e, In e l2 -> ~ closes e rid.
+Proof. exact closed_once. Qed.
+Print Assumptions C03_ledger_over_histories. Print Assumptions C03_closed_once.
+
 Print Assumptions C03_no_divert. Print Assumptions C03_pickup_once.
 Print Assumptions C03_pickup_needs_waiting. Print Assumptions C03_cancel_once.
